@@ -326,6 +326,17 @@ def d10Text (F : Spec.Efmt.TFields) : Bool :=
   | some y, some m, some d => Cal.d10class y m d
   | _, _, _ => false
 
+/-- recorded finding D25w seen from the parsing side: a DIGIT used as a literal separator next to a numeric field (`%dT9%Y`)
+    — the separator-driven tokenizer reads the separator digit into the neighbouring number ("31T9582" is day 31, year
+    9582 instead of year 582), so a text whose fields (as the format spells them) must be rejected can be accepted as
+    the merged reading -/
+def digitSepMerge : List Spec.Efmt.SItem → Bool
+  | a :: b :: r =>
+    (Spec.Efmt.numericLetter a.letter && (match a.seps.head? with | some c => Spec.Efmt.isDig c | none => false)) ||
+    (Spec.Efmt.numericLetter b.letter && (match a.seps.getLast? with | some c => Spec.Efmt.isDig c | none => false)) ||
+    digitSepMerge (b :: r)
+  | _ => false
+
 /-- the (format, text) stream: outcome (and value, when modelled) of a parse; the spec reads the text with its
     own strict grammar and demands an error for out-of-range fields, a weekday that is not the weekday of the
     date, and the time scale written in the text -/
@@ -364,6 +375,7 @@ def parseOp (op : String) (fr : Res Format) (items : Option (List Spec.Efmt.SIte
     let cls :=
       if !failing then "-"
       else if (match tf with | some F => d10Text F | none => false) && clause == some "invalid_date" then "D10"
+      else if (match items with | some its => digitSepMerge its | none => false) && sp.startsWith "FAIL:accepted" then "D25w"
       else "-"
     { model := if valueOpen then "unmodelled" else showResEp m, spec := sp, cls := cls,
       branch := op ++ ":" ++ resTag m ++
